@@ -73,12 +73,9 @@ theorem branchChildren_length (L : Limits) (pvid depth : Nat) (o : PyObj) (bs : 
 
 theorem childNodes_length (L : Limits) (pvid : Nat) (o : PyObj) (d : Nat) (cs : List Node)
     (h : childNodes L pvid o d = .ok cs) : cs.length ≤ o.kids := by
-  unfold childNodes at h
-  split at h
-  · simp only [Except.ok.injEq] at h; subst h; simp
-  · split at h
-    · simp only [Except.ok.injEq] at h; subst h; simp
-    · exact branchChildren_length L pvid (d + 1) o childBranches cs h
+  rcases childNodes_ok_cases h with rfl | ⟨_, hb⟩
+  · simp
+  · exact branchChildren_length L pvid (d + 1) o childBranches cs hb
 
 /-- the termination measure -/
 def potential (H : Heap) (L : Limits) (s : BState) : Nat :=
